@@ -138,3 +138,18 @@ package valid
 //@   let k = rv.kind(tv)
 //@   modifies sb.content(errBuf), sb.nw(errBuf)
 //@   ensures [C01 NoEq.verdict] atoiOk(val) && measureDefined(k) && fits53(atoi(val)) ==> ((sb.nw(errBuf) > old(sb.nw(errBuf))) <==> measure(tv) == atoi(val))
+
+// ---------------------------------------------------------------------------
+// the rule-function type: what every walker establishes at the dynamic call
+// fn(errBuf, validName, objName, fieldName, tv), and what every built-in rule may rely on.
+
+//@ functype CommonValidFn(errBuf, validName, objName, fieldName, tv)
+//@   requires [C13 rule.errBuf] errBuf != nil
+//@   requires [C13 C18 rule.value.valid] rv.valid(tv) && !rv.ro(tv)
+//@   requires [C03 zero-skip] !rv.isZero(tv)
+//@   modifies sb.content(errBuf), sb.nw(errBuf)
+
+//@ func RemoveTypePtr
+//@   requires t != nil
+//@   modifies nothing
+//@   ensures result != nil && rt.kind(result) != 22
